@@ -342,9 +342,16 @@ class RTCIceTransport(AsyncIOEventEmitter):
         try:
             await self._connection.connect()
         except ConnectionError:
-            self.__setState("failed")
+            if self.state != "closed":
+                self.__setState("failed")
         else:
-            self.__setState("completed")
+            if self.state == "closed":
+                # stop() was called while the connectivity checks were
+                # completing: the connection has started its consent checks
+                # since, so it needs to be closed again.
+                await self._connection.close()
+            else:
+                self.__setState("completed")
         self.__start.set()
 
     async def stop(self) -> None:
